@@ -14,9 +14,10 @@ ID = "C17"
 RULE = (
     "Hypothesis draws a key/value tree (depth 0..5, fan-out 0..8, UTF-8 keys of 1..60 bytes incl. multi-byte characters, values "
     "of all types: Int (full int64), UInt (full uint64), Double (incl. +-inf, -0.0, NaN compared by bit pattern), String "
-    "(UTF-16-LE incl. astral characters, length 0..3000), Array (0..6000 bytes), Bool; values >= 0x800 bytes and some smaller "
+    "(UTF-16-LE incl. astral characters and leading U+FEFF / U+FFFE, length 0..3000), Array (0..6000 bytes), Bool; values >= 0x800 bytes and some smaller "
     "ones stored in file objects) and a serialisation: entries distributed over 1..6 key tables in shuffled order with "
-    "parents in other tables, free entries and slack bytes interleaved, table tail zero-filled or a free entry, stale key "
+    "parents in other tables, free entries (with zeroed or stale, unresolvable parent references) and slack bytes interleaved, file "
+    "objects behind the tables or at offsets around and beyond 4 GiB (sparse in-memory file), table tail zero-filled or a free entry, stale key "
     "tables with the same index and a lower sequence number (different content) before or after the active one, object-table "
     "holes (unallocated entries of any type) and a chained second object table, two file headers with distinct sequence "
     "numbers in either slot where the inactive one may carry version 0x300, a wrong signature or a bogus replay-log offset. "
@@ -107,6 +108,8 @@ def tree_spec(draw, tier):
             "seq": draw(st.integers(1, 65535)), "tail": draw(st.sampled_from(["zero", "free"])),
             "free": draw(st.lists(st.tuples(st.integers(0, 12), st.sampled_from([21, 30, 47, 100])), max_size=3, unique_by=lambda x: x[0])),
             "stale": draw(st.sampled_from([None, None, {"seq": draw(st.integers(0, 65535))}])), "stale_first": draw(st.booleans()),
+            # free entries that still carry the parent reference they had: an offset inside free space, a table that is gone
+            "free_stale_parent": draw(st.sampled_from([None, None, [t, 11], [t, 0x7FF0], [ntables + 3, 10], [0xFFFF, 0xFFFFFFFF]])),
         }
     s1 = draw(st.integers(0, 65535))
     s2 = draw(st.integers(0, 65535).filter(lambda x: x != s1))
@@ -116,6 +119,8 @@ def tree_spec(draw, tier):
                          "chain_at": draw(st.sampled_from([None, None, 0, 1, 3])), "trailing": draw(st.integers(0, 3)),
                          "chain_depth": draw(st.sampled_from([1, 2, 2])), "chain_backwards": draw(st.booleans())},
         "gap": draw(st.sampled_from([0, 0, 1])),
+        # file objects at absolute offsets around and beyond 4 GiB (sparse in-memory file)
+        "fo_far": draw(st.sampled_from([0, 0, 0, 0xFFFFF000, 1 << 32, (1 << 32) + 0x5000, 0x2_8000_0000])),
     }
     return spec
 
@@ -175,7 +180,19 @@ def check(spec) -> Outcome:
             "chained-object-table" if spec["object_table"]["chain_at"] is not None else "single-object-table")
     if any(t.get("stale") for t in spec["tables"].values()):
         out.cls("stale-tables")
-    hf, err = lib(HyperVFile, io.BytesIO(data))
+    if meta.get("far_objects"):
+        from hv.sparse import SparseFile
+
+        fh = SparseFile()
+        fh.put(0, data)
+        for off, vb in meta["far_objects"]:
+            if vb:
+                fh.put(off, vb)
+        fh.grow(max(o + max(1, len(v)) for o, v in meta["far_objects"]) + 0x1000)
+        out.cls("file-objects-beyond-4GiB" if any(o >= 1 << 32 for o, _v in meta["far_objects"]) else "file-objects-far")
+    else:
+        fh = io.BytesIO(data)
+    hf, err = lib(HyperVFile, fh)
     if err:
         out.fail(err.sig("hyperv-open"), f"HyperVFile() raised {err.describe()}")
         return out
